@@ -3,7 +3,7 @@ The independent reference writer (/verif/ref, driven by a description struct) em
 from e2 import E2
 FILES = ['src/reader/page_reader.c', 'src/reader/file_reader.c', 'src/reader/column_reader.c', 'src/encoding/rle.c', 'src/encoding/plain.c', 'src/encoding/dictionary.c',
          'src/thrift/parquet_types.c', 'src/thrift/thrift_decode.c', 'src/simd/dispatch.c', 'src/compression/snappy.c', 'src/compression/lz4.c', 'src/reader/mmap_reader.c']
-BUDGET = {'quick': 1500, 'thorough': 3600}
+BUDGET = {'quick': 840, 'thorough': 3600}
 H = 'harness/e2/c06_interop.c'
 REF = ['ref_parquet_write.c', 'ref_parquet_read.c', 'ref_parquet_meta.c', 'ref_thrift.c', 'ref_rle.c', 'ref_snappy.c', 'ref_lz4.c', 'ref_hash.c', 'ref_plain_bss.c']
 # reference tables shrunk to the shapes used here (struct sizes of the description and of the writer's stack frames)
@@ -84,7 +84,7 @@ def obligations(tier):
     o.append(shape(t=3, s=1, nlv=big, dl=0, batch=5))
     o.append(shape(t=4, s=1, nlv=big, dl=1))
     o.append(shape(t=5, s=1, nlv=big, dl=6))
-    o.append(shape(t=6, s=1, nlv=(3, 2), dl=0, batch=3, nbalen=1 if q else 2))
+    o.append(shape(t=6, s=1, nlv=(2, 2) if q else (3, 2), dl=0, batch=3, nbalen=1 if q else 2))
     o.append(shape(t=7, s=1, nlv=big, dl=2))
     # REQUIRED (no level blocks at all)
     o.append(shape(t=0, s=0, nlv=(4, 3) if q else (5, 4)))
@@ -105,6 +105,7 @@ def obligations(tier):
     o.append(shape(t=6, s=0, nlv=(3,), enc=2, nd=3, ibw=2, il=0, nbalen=1))
     # the readable old-writer mode: data_page_offset points at the dictionary page, dictionary_page_offset absent
     o.append(shape(t=1, s=1, nlv=(3,), enc=8, nd=3, ibw=2, dictmode=2, fork_max=2))
+    o.append(shape(t=5, s=0, nlv=(3, 2), enc=2, nd=3, ibw=2, dictmode=2, fork_max=2, openm=1))
     # ---- C. nested schemas: optional / repeated ancestors, depth <= 3, max_rep > 0
     o.append(shape(t=1, s=2, nlv=(4, 3), dl=0))
     o.append(shape(t=2, s=3, nlv=(4, 3), dl=0, rl=0))
@@ -146,6 +147,7 @@ def obligations(tier):
     o.append(shape(t=2, s=1, nlv=(3,), enc=8, nd=3, ibw=2, crc=2, fork_max=2))
     o.append(shape(t=1, s=1, nlv=(3, 3), stats=1))
     o.append(shape(t=1, s=1, nlv=(3,), stats=2))
+    o.append(shape(t=2, s=1, nlv=(2, 2), enc=8, nd=2, ibw=1, stats=2, openm=1))
     o.append(shape(t=1, s=3, nlv=(3, 2), enc=8, nd=3, ibw=2, thrift=1, stats=1, fork_max=2))
     o.append(shape(t=6, s=1, nlv=(3,), enc=8, nd=2, ibw=1, thrift=2, stats=1))
     o.append(shape(t=5, s=2, nlv=(3, 3), thrift=3, extra=1))
@@ -169,7 +171,7 @@ def obligations(tier):
     #         k in 1..3 levels (fresh symbolic k per call) so that page transitions fall inside and between calls
     for encs, nl in [((0, 8, 0), (3, 2, 3)), ((0, 2, 0), (2, 3, 2)), ((8, 0, 8), (2, 3, 2)), ((2, 0, 2), (3, 2, 3))]:
         o.append(shape(t=1, s=0, nlv=nl, enc=encs, nd=3, ibw=2, fork_max=2, openm=3, batch=-3))
-        o.append(shape(t=2 if encs[0] else 5, s=1, nlv=nl, sym=0x5, enc=encs, nd=3, ibw=2, fork_max=2, openm=3, batch=-4))
+        o.append(shape(t=2 if encs[0] else 5, s=1, nlv=nl, sym=0x1 if q else 0x5, enc=encs, nd=3, ibw=2, fork_max=2, openm=3, batch=-4))
     if not q:
         for t in (3, 7, 4):
             o.append(shape(t=t, s=0, nlv=(3, 2, 3), enc=(0, 8, 0), nd=3, ibw=2, fork_max=2, openm=3, batch=-3))
@@ -184,10 +186,34 @@ def obligations(tier):
     o.append(shape(t=1, s=3, nlv=(3,), neg=1, openm=1))
     o.append(shape(t=1, s=1, nlv=(4,), neg=1, codec=1))
     o.append(shape(t=6, s=2, nlv=(3,), neg=1, codec=7))
-    o.append(shape(t=2, s=0, nlv=(3,), neg=1, codec=7, v2raw=1))
     o.append(shape(t=1, s=0, nlv=(4,), neg=1, codec=1, v2raw=1))
     o.append(shape(t=1, s=1, nlv=(3,), neg=2, ibw=1))
     o.append(shape(t=6, s=0, nlv=(3,), neg=2, ibw=1, openm=2))
     o.append(shape(t=1, s=0, nlv=(3,), neg=3))
     o.append(shape(t=5, s=1, nlv=(3,), neg=3, openm=1))
+    if not q:
+        # ---- thorough: systematic sweeps
+        for t in range(8):                                   # every type: larger PLAIN pages, 3 pages, every codec
+            o.append(shape(t=t, s=1, nlv=(3, 2, 3) if t in (0, 6) else (4, 3, 4), dl=t % 4, tag='/3pages'))
+            for codec in (1, 7):
+                o.append(shape(t=t, s=1, nlv=(3, 2) if t in (0, 6) else (4, 3), codec=codec, dl=(t + codec) % 4, tag='/sweep'))
+        for t in range(1, 8):                                # every dictionary-capable type x both tags x both modes of announcing... (AT_DATA is the open finding)
+            for enc in (2, 8):
+                o.append(shape(t=t, s=1 + (t % 2), nlv=(3, 3) if t != 6 else (2, 2), enc=enc, nd=4 if t != 6 else 2, ibw=3 if enc == 8 else 2, il=t % 4, fork_max=2 if t != 6 else 8, tag='/sweep'))
+        for sch in range(2, 9):                              # every nested schema x three types
+            for t in (1, 5, 6):
+                o.append(shape(t=t, s=sch, nlv=(4, 4) if t != 6 else (3, 2), dl=sch % 4, rl=(sch + 1) % 4, tag='/sweep'))
+        for lay in (0, 1, 2, 3, 4, 5, 6, 7, 8, 9, 10):        # every layout kind for each of the three streams
+            big = lay in (4, 5, 10)
+            o.append(shape(t=1, s=8, nlv=(11,) if big else (5,), sym=0x581 if big else None, dl=lay, tag='/layout-sweep'))
+            o.append(shape(t=1, s=5, nlv=(11,) if big else (5,), sym=0x581 if big else None, dl=0, rl=lay, tag='/layout-sweep'))
+            o.append(shape(t=2, s=0, nlv=(11,) if big else (5,), enc=8, nd=4, ibw=3, il=lay, fork_max=2, tag='/layout-sweep'))
+        for th in (1, 2, 3):                                 # Thrift variants x (plain, dictionary) x open modes
+            for om in (0, 1, 2):
+                o.append(shape(t=1, s=3, nlv=(3, 2), thrift=th, stats=1, openm=om, crc=1 if th == 2 else 0, tag='/sweep'))
+                o.append(shape(t=7, s=1, nlv=(3, 2), enc=8, nd=3, ibw=2, thrift=th, stats=1, openm=om, fork_max=2, tag='/sweep'))
+        for t in (0, 3, 6):                                  # negatives for more types
+            o.append(shape(t=t, s=1, nlv=(3,), neg=2, ibw=1, tag='/sweep'))
+            o.append(shape(t=t, s=0, nlv=(3,), neg=3, openm=2, tag='/sweep'))
+            o.append(shape(t=t, s=0, nlv=(3,), neg=1, tag='/sweep'))
     return o
